@@ -20,6 +20,7 @@
 EXTENDS TreeOps
 CONSTANT KnownDefects          \* subset of DefectNames: the deviations of the code that are switched ON
 DefectNames == {"dom-colon-attr-collision",        \* open  (known_findings.json)
+                "dom-doctype-name-colon",          \* open  (known_findings.d/C04.json)
                 "etree-insertBefore-shadow"}       \* fixed in /repo 30680e6; kept so that TLC can still show what it was
 
 Call(op, s, c, r, d) == [op |-> op, s |-> s, c |-> c, r |-> r, d |-> d, k |-> "", ns |-> "", n |-> <<>>, a |-> <<>>, p |-> None, q |-> None]
